@@ -854,3 +854,8 @@ mutant('R11-C12-end-headers-predicate-inverted', ['C12', 'C09'], ['flag|HeadersF
 mutant('R9-C04-server-initiated-parity', ['C04', 'C09'], ['stream-id|is_server_initiated'],
        'StreamId::is_server_initiated accepts odd identifiers',
        [('src/frame/stream_id.rs', 'id != 0 && id % 2 == 0', 'id != 0 && id % 2 != 0')])
+
+# ---------------------------------------------------------------- F11 revert
+mutant('F11-revert-recv-reset-ignores-scheduled-reset', ['C05', 'C19', 'C01', 'C09'], ['recv_reset|Closed(ScheduledLibraryReset(?))|queued=false'],
+       'State::recv_reset ignores RST_STREAM for a stream whose own reset is only scheduled and that is not in pending_send (F11 before the fix)',
+       [(S + 'state.rs', 'Closed(ref cause) if !queued && !matches!(cause, Cause::ScheduledLibraryReset(..)) => {}', 'Closed(..) if !queued => {}')])
